@@ -152,5 +152,15 @@ CHECKS = {
         note="Relation semantics as in Custodian's ValueFilter (present/not-null = truthy, absent/empty = falsy; age/expiration as time since / until); one recorded finding (glacier table entry, pinned by a test).",
         design_ref="DESIGN.md §4 C19",
     ),
+    "C20": dict(
+        technique="property-based testing (Hypothesis): differential against the library API for -n / -b / --arg, metamorphic relation (stream vs its one-document runs) for NDJSON",
+        category="exploration",
+        text="celpy.__main__.main(argv) in-process with replaced stdin/stdout/stderr: -n output equals the encoder's serialisation of the API value, -b statuses 0/1/2, syntax "
+             "errors status 1 with the parser's line:column, typed --arg bindings of every CLI type built independently; NDJSON streams of 0-8 documents (objects, erroring, "
+             "non-objects, malformed, blank) with/without -b, -p, -d: output = concatenation of single-document runs, status = their maximum, malformed => 3; -s equals the one-line run; "
+             "thorough adds real subprocesses.",
+        note="Per-document status codes are not assumed (metamorphic); an evaluation error without -b is not asserted.",
+        design_ref="DESIGN.md §4 C20",
+    ),
 }
 NOT_APPLICABLE = {}
